@@ -92,6 +92,10 @@ def parse_rfc3339_datetime(rfc3339):
 
     if "." not in date:
         date = date + ".0"
+    else:
+        # RFC3339 allows any number of fractional digits but %f at most six.
+        whole, fraction = date.split(".", 1)
+        date = whole + "." + fraction[:6]
     raw_datetime = datetime.strptime(date, "%Y-%m-%dT%H:%M:%S.%f")
     delta = timedelta(hours=int(offset[-5:-3]), minutes=int(offset[-2:]))
     if offset[0] == "-":
